@@ -1,7 +1,7 @@
 import Mutagen.Driver.Util
 import Mutagen.Driver.Tree
 import Mutagen.Driver.Cycle
-import Mutagen.Model.Lifecycle
+import Mutagen.Model.SyncCycle
 namespace Mutagen.Driver.C11
 open Mutagen.Driver Mutagen.Driver.Tree Mutagen.Driver.Cycle Mutagen.Model
 
